@@ -234,6 +234,10 @@ def gen_history(rng, prof, probes):
                 # an earlier Backup into this directory was interrupted after the log files: this one must finish the job
                 ops.append('bkhalf ' + name)
                 note('backup_after_interrupted')
+                if rng.random() < 0.5:
+                    # killed in the middle of a file: the newest log file of the target is short and newer than its source
+                    ops[-1] += ' cut'
+                    note('backup_after_killed_copy')
             ops.append('backup ' + name)
             sh.bk[name] = True
             ops.append('bkobs %s %d' % (name, rng.choice([0, 0, 1])))
